@@ -146,7 +146,7 @@ class RunResult:
 
 def run_analysis(case, workers, timeout, chooser, threshold, max_steps=200000, deadline_slack=None,
                  parent_cost=None, speeds=None, start_delays=None, want_report=True, extra_inv=None, rtt=None,
-                 via_cli=False, item_cost=None, fork_cost=None):
+                 via_cli=False, item_cost=None, fork_cost=None, syscall_cost=None):
     """One simulated analysis.  Returns RunResult with everything the oracles need."""
     import osaca.semantics.kernel_dg as kd
     case.prepare()
@@ -158,9 +158,11 @@ def run_analysis(case, workers, timeout, chooser, threshold, max_steps=200000, d
         item_cost = procs.ITEM_COSTS[chooser.choose(len(procs.ITEM_COSTS), "itemcost")]
     if fork_cost is None:
         fork_cost = procs.FORK_COSTS[chooser.choose(len(procs.FORK_COSTS), "forkcost")]
+    if syscall_cost is None:
+        syscall_cost = procs.SYSCALL_COSTS[chooser.choose(len(procs.SYSCALL_COSTS), "syscallcost")]
     w = procs.World(sim, ncpu=workers, shared=[case.parser, case.mm, case.sem],
                     speeds=speeds or procs.SPEEDS, start_delays=start_delays or procs.START_DELAYS, rtt=rtt,
-                    item_cost=item_cost, fork_cost=fork_cost)
+                    item_cost=item_cost, fork_cost=fork_cost, syscall_cost=syscall_cost)
     if parent_cost is None:
         parent_cost = (speeds or procs.SPEEDS)[chooser.choose(len(speeds or procs.SPEEDS), "pspeed")]
     res = RunResult()
